@@ -28,7 +28,7 @@ CORPORA.update({
     'partly-tagged': [('tokenized', 'ab/N c ab/V'), ('partial', 'c/X|a b')],
     'tagged-long': [('tokenized', 'abc/N a/X abc/V a/Y')],
 })
-CFGS_QUICK = [(0, 0, 0, 0), (1, 1, 1, 1), (2, 2, 2, 2), (1, 3, 1, 3), (1, 1, 2, 2), (2, 2, 1, 1), (0, 2, 2, 0), (2, 0, 0, 2), (3, 1, 1, 3), (1, 2, 2, 1), (1, 3, 3, 1)]
+CFGS_QUICK = [(0, 0, 0, 0), (1, 1, 1, 1), (2, 2, 2, 2), (1, 3, 1, 3), (1, 1, 2, 2), (2, 2, 1, 1), (0, 2, 2, 0), (2, 0, 0, 2), (3, 1, 1, 3), (1, 2, 2, 1), (1, 3, 2, 1)]
 DICTS = {'none': ([], 4), 'a-ab': (['a', 'ab'], 1), 'dup': (['a', 'a'], 2)}
 BOUNDS = {
     'quick': {'configurations': CFGS_QUICK, 'corpora': sorted(CORPORA), 'dictionaries': sorted(DICTS), 'learner': 'stub: every build_model outcome (Err/Ok) of the first two learning problems, '
@@ -59,7 +59,7 @@ def jobs(tier, seed):
                     continue
                 if tier == 'quick' and cfg not in ((1, 1, 1, 1), (1, 3, 1, 3), (0, 0, 0, 0), (1, 1, 2, 2)) and cn in ('mixed', 'one-char', 'tagged-partial', 'ab-c'):
                     continue
-                if tier == 'quick' and cfg not in ((1, 1, 1, 1), (1, 3, 1, 3), (2, 2, 1, 1), (0, 2, 2, 0), (3, 1, 1, 3), (1, 3, 3, 1)) and cn in ('tagged', 'tagged-long', 'partly-tagged', 'tagged-partial'):
+                if tier == 'quick' and cfg not in ((1, 1, 1, 1), (1, 3, 1, 3), (2, 2, 1, 1), (0, 2, 2, 0), (3, 1, 1, 3), (1, 3, 2, 1)) and cn in ('tagged', 'tagged-long', 'partly-tagged', 'tagged-partial'):
                     continue
                 js.append({'name': 'train/%s/%s/%s' % ('-'.join(map(str, cfg)), cn, dn), 'kind': 'train', 'cfg': list(cfg), 'corpus': cn, 'dict': dn, 'seed': seed,
                            'tagdict': cn in ('tagged', 'partly-tagged')})
